@@ -8,11 +8,14 @@ import struct
 import numpy as np
 
 from . import kernels as K
+from . import methods as MM
 from .common import Disagreement, drive, q, qs, parse_qs, ROOT
 from .c05 import fmt_fits
 
 PROP_MODULE = 'PbVerif.Props.C19'
-RULE = ('cases = (x kind, N, total_points, poly_order, delta, weighting options, max_iter); the fit/window/skip selection and the '
+RULE = ('cases = (x kind, x-axis magnitude kind (methods.X_MAGNITUDES with dyadic factors: x * 2^-100 ... 2^99, huge offsets with a narrow '
+        'range, negative ranges - exact images of the dyadic reference axis, delta scaled alike, so every float comparison of the '
+        'selection stays exact), N, total_points, poly_order, delta, weighting options, max_iter); the fit/window/skip selection and the '
         'skip filling are compared exactly with the Lean model on dyadic x; the two memory strategies and compiled/uncompiled kernels '
         'are compared on the real code; non-trivial = delta > 0 or max_iter >= 1; distinct by canonical tuple; loop kernels: two passes '
         '(data/weights changed in between, exact-zero weights included) of the Python-source _loess_first_loop / _loess_nonfirst_loops / '
@@ -43,26 +46,46 @@ def x_of(rng, n, kind):
     return np.arange(n, dtype=float)
 
 
+def on_axis(x, mag):
+    """(x', factor): the exact image of the dyadic x on the axis of magnitude `mag` (factor: a power of two; lengths such as delta are
+    multiplied with it); the image is verified to be exact, otherwise the reference axis is kept"""
+    if mag == '1':
+        return x, 1.0
+    from fractions import Fraction
+    xm, f = MM.x_magnitude(x, mag, dyadic=True)
+    d0, dm = np.diff(x), np.diff(xm)
+    if len(np.unique(xm)) != len(np.unique(x)) or any(Fraction(float(a)) * Fraction(f) != Fraction(float(b)) for a, b in zip(d0, dm)):
+        return None, None
+    return xm, f
+
+
 def loess_cases(ctx, rng):
     kinds = ['uniform', 'random', 'clustered', 'gap_end']
+    mags = MM.x_magnitude_cycle(ctx.seed, MM.X_MAGNITUDE_UNUSUAL)
     out = []
     for n in ([4, 7, 12, 23, 40] + ([120] if ctx.thorough else [])):
         for kind in kinds:
-            x = x_of(rng, n, kind)
-            span = x[-1] - x[0]
-            for po in (0, 1, 2, 3):
-                for tp in sorted({po + 1, max(po + 1, n // 3), n - 1, n}):
-                    if tp < po + 1 or tp > n:
-                        continue
-                    for delta in (0.0, 0.125, 2.125, 0.1 * span, 2 * span):
-                        if not ctx.thorough and rng.random() < 0.55:
+            x0 = x_of(rng, n, kind)
+            span = x0[-1] - x0[0]
+            # every (N, x kind) block once on the reference axis and once, thinned, on an axis of unusual magnitude (round-robin)
+            for mag in ('1', next(mags)):
+                x, fac = on_axis(x0, mag)
+                if x is None:
+                    ctx.count('x-magnitude:inexact-image(skipped):' + mag)
+                    continue
+                for po in (0, 1, 2, 3):
+                    for tp in sorted({po + 1, max(po + 1, n // 3), n - 1, n}):
+                        if tp < po + 1 or tp > n:
                             continue
-                        opts = dict(symmetric_weights=bool(rng.integers(0, 2)), use_threshold=bool(rng.integers(0, 2)),
-                                    max_iter=int(rng.choice([0, 1, 2, 4, 10])))
-                        if rng.random() < 0.35:
-                            # caller-supplied, non-uniform weights: both strategies must apply them in every pass
-                            opts['weights'] = (np.round(rng.uniform(0.2, 1.0, n) * 64) / 64).tolist()
-                        out.append((n, kind, x, po, tp, float(delta), opts))
+                        for delta in (0.0, 0.125, 2.125, 0.1 * span, 2 * span):
+                            if rng.random() < ((0.55 if not ctx.thorough else 0.0) if mag == '1' else (0.8 if not ctx.thorough else 0.5)):
+                                continue
+                            opts = dict(symmetric_weights=bool(rng.integers(0, 2)), use_threshold=bool(rng.integers(0, 2)),
+                                        max_iter=int(rng.choice([0, 1, 2, 4, 10])))
+                            if rng.random() < 0.35:
+                                # caller-supplied, non-uniform weights: both strategies must apply them in every pass
+                                opts['weights'] = (np.round(rng.uniform(0.2, 1.0, n) * 64) / 64).tolist()
+                            out.append((n, kind, x, po, tp, float(delta) * fac, opts, mag, x0, float(delta)))
     return out
 
 
@@ -144,6 +167,7 @@ def strategy_problem(out):
 
 def kernel_cases(ctx, rng):
     kinds = ['uniform', 'random', 'clustered', 'gap_end']
+    mags = MM.x_magnitude_cycle(ctx.seed + 3, MM.X_MAGNITUDE_UNUSUAL)
     out = []
     for n in ([3, 4, 5, 7, 9, 12] + ([20, 33] if ctx.thorough else [])):
         for kind in kinds:
@@ -156,11 +180,20 @@ def kernel_cases(ctx, rng):
                     x = x_of(rng, n, kind)
                     span = x[-1] - x[0]
                     delta = float(rng.choice([0.0, 0.125, 1.125, 0.2 * span]))
+                    mag = '1'
+                    if rng.random() < 0.3:
+                        # the same case on an axis of unusual magnitude (exact dyadic image; delta scaled alike)
+                        mag = next(mags)
+                        xm, fac = on_axis(x, mag)
+                        if xm is None:
+                            mag = '1'
+                        else:
+                            x, delta = xm, delta * fac
                     y1 = rng.integers(-16, 17, n) / 8
                     y2 = np.minimum(y1, rng.integers(-16, 17, n) / 8)       # what `use_threshold` does to y
                     w1 = np.ones(n) if rng.random() < 0.5 else rng.integers(1, 9, n) / 8
                     w2 = rng.integers(0 if rng.random() < 0.3 else 1, 9, n) / 8   # _tukey_square gives exact zeros
-                    out.append({'x': x.tolist(), 'kind': kind, 'poly_order': po, 'total_points': tp, 'delta': delta,
+                    out.append({'x': x.tolist(), 'kind': kind, 'x_magnitude': mag, 'poly_order': po, 'total_points': tp, 'delta': delta,
                                 'y1': y1.tolist(), 'w1': w1.tolist(), 'y2': y2.tolist(), 'w2': w2.tolist(), 'check': 'kernels'})
     return out
 
@@ -229,6 +262,7 @@ def kernels_correspond(ctx, rng, dis):
         ctx.case(canon, nontrivial=True, sample={k: meta[k] for k in ('kind', 'poly_order', 'total_points', 'delta')} | {'N': n}
                  if n == 7 and po == 1 else None)
         ctx.count('kernels:x:' + meta['kind'])
+        ctx.count('kernels:x-magnitude:' + meta.get('x_magnitude', '1'))
         ctx.count('kernels:tp-po:%s' % (tp - po if tp - po < 4 else '>=4'))
         ctx.count('kernels:outcome:' + ('LinAlgError' if out.get('linalg') else 'ok'))
         prob = strategy_problem(out)
@@ -263,7 +297,7 @@ def kernels_correspond(ctx, rng, dis):
     for k, (meta, out) in enumerate(keep):
         rk, rl = res[2 * k], res[2 * k + 1]
         n, po, tp = len(meta['x']), meta['poly_order'], meta['total_points']
-        where = f'(N={n}, tp={tp}, po={po}, delta={meta["delta"]}, x={meta["kind"]})'
+        where = f'(N={n}, tp={tp}, po={po}, delta={meta["delta"]}, x={meta["kind"]}, axis {meta.get("x_magnitude", "1")})'
         parts = rl.split('|')
         if rk == 'bad-op' or len(parts) != 6:
             dis.append(Disagreement('c19.model', 'model:kernels-protocol', f'driver answered {rl[:60]!r} {where}', meta, False))
@@ -335,14 +369,17 @@ def correspond(ctx):
         if r:
             dis.append(Disagreement('c19.corpus', d['signature'], f'corpus {os.path.basename(f)}: {r}', d['replay'], True))
     lines, exp, metas = [], [], []
-    for n, kind, x, po, tp, delta, opts in loess_cases(ctx, rng):
+    for n, kind, x, po, tp, delta, opts, mag, x_ref, delta_ref in loess_cases(ctx, rng):
         canon = ('loess', n, kind, po, tp, delta, tuple(sorted((k, (tuple(v) if isinstance(v, list) else v)) for k, v in opts.items())), tuple(x.tolist()))
         ctx.count('x:' + kind)
+        ctx.count('x-magnitude:' + mag)
         ctx.count('poly_order:%d' % po)
         ctx.count('delta:' + ('0' if delta == 0 else '>0'))
         t = (x - x[0]) / max(x[-1] - x[0], 1)
         y = 3 + 2 * t + 5 * np.exp(-((t - 0.4) / 0.1) ** 2) + rng.normal(0, 0.05, n)
         meta = {'x': x.tolist(), 'y': y.tolist(), 'poly_order': po, 'total_points': tp, 'delta': delta, 'opts': opts}
+        if mag != '1':
+            meta.update(x_magnitude=mag, x_ref=x_ref.tolist(), delta_ref=delta_ref)
         # (1) selection of fits / windows / skips vs the model (exact) and its documented properties
         res = K.monitored(lambda: det_fits(x, n, tp, delta), names | {'_determine_fits'})
         if res[0] != 'ok':
@@ -351,7 +388,8 @@ def correspond(ctx):
         w, f, s = res[1]
         prob = check_selection(x, n, tp, delta, w, f, s)
         if prob:
-            dis.append(Disagreement('c19.fits', 'fits:' + prob[0], f'_determine_fits(N={n}, total_points={tp}, delta={delta}, x={kind}): {prob[1]}',
+            dis.append(Disagreement('c19.fits', 'fits:' + prob[0], f'_determine_fits(N={n}, total_points={tp}, delta={delta}, x={kind}'
+                                    + ('' if mag == '1' else f' on the axis {mag}') + f'): {prob[1]}',
                                     dict(meta, check='selection'), True))
         lines.append(f'c19.fits {tp} {q(delta)} {qs(x)}')
         exp.append(fmt_fits(w, f, s))
@@ -379,6 +417,10 @@ def correspond(ctx):
                 dis.append(Disagreement('c19.strategy', 'strategy:outcome', f'conserve_memory=True raised {type(e).__name__} but False returned', meta, True))
             except Exception:
                 pass
+            why = axis_problem(meta)
+            if why:
+                dis.append(Disagreement('c19.axis', 'axis:outcome', f'loess (N={n}, tp={tp}, po={po}, delta={delta}, x={kind} on the axis {mag}): {why}',
+                                        dict(meta, check='axis'), True))
             continue
         ctx.case(canon, nontrivial=(delta > 0 or opts['max_iter'] >= 1),
                  sample={'N': n, 'x': kind, 'poly_order': po, 'total_points': tp, 'delta': delta, **opts} if n == 12 else None)
@@ -392,11 +434,21 @@ def correspond(ctx):
                                             f'(N={n}, tp={tp}, po={po}, delta={delta}, {opts})', dict(meta, check='strategy', key=key), True))
                 else:
                     ctx.notes.append(f'strategies differ in rounding only ({key})')
+        if mag != '1' and rng.random() < 0.5:
+            ctx.count('axis-vs-reference')
+            why = axis_problem(meta)
+            if why:
+                dis.append(Disagreement('c19.axis', 'axis:baseline', f'loess (N={n}, tp={tp}, po={po}, delta={delta}, x={kind} on the axis {mag}): {why}',
+                                        dict(meta, check='axis'), True))
         # chord law at skipped points (the baseline is interpolated on the mapped x, a linear map of x)
         for a, c in s:
             for k in range(a + 1, c - 1):
                 want = b1[a] + (x[k] - x[a]) * (b1[c - 1] - b1[a]) / (x[c - 1] - x[a])
-                if not np.isclose(b1[k], want, rtol=1e-9, atol=1e-9 * max(1, abs(want))):
+                # the code interpolates on t = mapdomain(x) = off + scl * x, an affine image of x only to 4 eps max|x| scl: the three
+                # abscissae of the chord carry that error, the interpolated value 12 eps max|x| / (x[c-1] - x[a]) of the chord's rise
+                # (1e-15 on ordinary axes, 1e-6 on 1e6 + [0, 1e-3])
+                slack = 12 * EPS * float(np.max(np.abs(x))) / float(x[c - 1] - x[a]) * abs(float(b1[c - 1] - b1[a]))
+                if not np.isclose(b1[k], want, rtol=1e-9, atol=1e-9 * max(1, abs(want)) + slack):
                     dis.append(Disagreement('c19.chord', 'chord', f'loess baseline at skipped point {k} is not on the line between fitted '
                                             f'points {a} and {c - 1} (N={n}, delta={delta})', dict(meta, check='chord'), True))
                     break
@@ -474,11 +526,21 @@ def run_history(x, y, hist):
 def history_cases(ctx, rng, dis):
     """the memory strategy must not matter on a RE-USED fitter either: histories of loess calls on one object in which delta,
     total_points, poly_order, the iteration budget and the strategy change from call to call (and sometimes do not)"""
+    hmags = MM.x_magnitude_cycle(ctx.seed + 5, MM.X_MAGNITUDE_UNUSUAL)
     for _ in range(40 if ctx.thorough else 10):
         n = int(rng.choice([12, 23, 40, 61]))
         kind = ['uniform', 'random', 'clustered'][int(rng.integers(0, 3))]
         x = x_of(rng, n, kind)
         y = np.round((0.02 * (x - x.mean()) ** 2 + 3 * np.exp(-0.5 * ((x - x[n // 2]) / (0.05 * (x[-1] - x[0]) + 1e-9)) ** 2) + rng.normal(0, 0.2, n)) * 64) / 64
+        hmag = '1'
+        if rng.random() < 0.5:
+            hmag = next(hmags)
+            xm, _fac = on_axis(x, hmag)
+            if xm is None:
+                hmag = '1'
+            else:
+                x = xm
+        ctx.count('history:x-magnitude:' + hmag)
         span = float(x[-1] - x[0])
         tps = [int(v) for v in rng.choice(np.arange(5, max(6, n // 2 + 1)), 2)]
         hist = []
@@ -503,6 +565,39 @@ def history_cases(ctx, rng, dis):
             dis.append(Disagreement('c19.history', 'strategy:history', f'loess on a re-used fitter (call {bad[0] + 1} of {len(hist)}, conserve_memory='
                                     f'{hist[bad[0]]["conserve_memory"]}) differs from a fresh fitter with conserve_memory=True: {bad[1]}; calls: {hist}',
                                     {'check': 'history', 'x': x.tolist(), 'y': y.tolist(), 'history': hist}, True))
+
+
+def axis_problem(meta):
+    """An axis of unusual magnitude is an exact increasing affine image of the reference axis (delta scaled alike): the windows, the
+    fitted points and the mapped abscissae in [-1, 1] are the same, so loess must do on it what it does on the reference axis.  Only
+    well-posed local fits are compared (total_points >= poly_order + 3, no robust re-weighting: rank-deficient local systems are solver
+    dependent - Appendix C).  Returns a description or None."""
+    from pybaselines import Baseline
+    if 'x_ref' not in meta or meta['total_points'] < meta['poly_order'] + 3:
+        return None
+    y = np.array(meta['y'], dtype=float)
+    kw = dict(total_points=meta['total_points'], poly_order=meta['poly_order'], max_iter=0, conserve_memory=True)
+    if 'weights' in meta['opts']:
+        kw['weights'] = np.array(meta['opts']['weights'])
+    outs = []
+    for xx, dd in ((meta['x_ref'], meta['delta_ref']), (meta['x'], meta['delta'])):
+        try:
+            with np.errstate(all='ignore'):
+                outs.append(('ok', Baseline(np.array(xx, dtype=float)).loess(y, delta=dd, **kw)[0]))
+        except Exception as e:          # noqa: BLE001
+            outs.append(('exc', type(e).__name__))
+    (s0, b0), (s1, b1) = outs
+    if s0 != 'ok' or not np.all(np.isfinite(b0)):
+        return None
+    if s1 != 'ok':
+        return f'raises {b1} although the same call on the reference axis (same relative positions, same windows) returns a baseline'
+    # the mapped abscissae t = off + scl * x of the two axes agree only to 4 eps max|x| / range (cancellation inside numpy's mapdomain)
+    xa = np.array(meta['x'], dtype=float)
+    sc = max(1.0, float(np.max(np.abs(y)))) * (1.0 + 1e9 * EPS * float(np.max(np.abs(xa))) / float(np.ptp(xa)))
+    if not np.allclose(b1, b0, rtol=0, atol=1e-6 * sc, equal_nan=True):
+        return (f'the baseline differs from the one on the reference axis by {float(np.nanmax(np.abs(b1 - b0))):.3g} (first iteration, well-posed '
+                f'local fits; the windows and the mapped abscissae are the same)')
+    return None
 
 
 def check_selection(x, n, tp, delta, w, f, s):
@@ -548,6 +643,8 @@ def replay(ctx, data):
     kw = dict(total_points=r['total_points'], poly_order=r['poly_order'], delta=r['delta'], return_coef=True, **r['opts'])
     chk = r.get('check')
     try:
+        if chk == 'axis':
+            return axis_problem(r)
         if chk == 'selection':
             w, f, s = det_fits(x, n, r['total_points'], r['delta'])
             p = check_selection(x, n, r['total_points'], r['delta'], w, f, s)
